@@ -3,8 +3,14 @@
     MC_UdpPool: no acquire/fill/release history leaves residue when Release clears every field (and TLC refutes it
     when one field is not cleared); MC_UdpMask: the two-pass rewriting leaves no password value for all small
     token sequences.
-(A) Trace_UdpPack (Strict = FALSE): real Write/Read round trips (carried set derived from the real writer),
-    real CreatePack/ClosePack histories with sentinels, real ToBytesPack/ToPack masking runs.
+    MC_UdpPool also has the reader entry points as acquisitions and the read that fails half way (lawful: abandon
+    the pack or clear it and put it back; refuted: put it back as it is).  MC_UdpAlias: kept encoder outputs stay
+    what they were when every call has its own buffer or hands out a copy; refuted for a shared buffer handed out.
+(A) Trace_UdpPack (Strict = FALSE): real Write/Read round trips (carried set derived from the real writer; caps
+    PINNED in the spec; every carried text field at the cap borders and at 32767/32768/32769/65535 bytes),
+    kept encoder outputs and packs looked at again after later calls, real CreatePack/ClosePack histories with
+    sentinels incl. ToPack/ReadPack of truncated, mutated and foreign-version datagrams, real ToBytesPack/ToPack
+    masking runs.
 (drift) Trace_UdpPack_drift.cfg (Strict = TRUE): the same traces against the TRANSCRIBED layout / caps / rewriting
     model; a rejection there alone is a stale spec: exit 2 (spec_drift), never a violation."""
 import json, os
@@ -40,20 +46,31 @@ def body(run):
     run.mc("MC_UdpCodec", cfg="MC_UdpCodec_thorough.cfg" if th else "MC_UdpCodec.cfg", workers=run.pick(4, 16))
     run.mc("MC_UdpPool", cfg="MC_UdpPool_thorough.cfg" if th else "MC_UdpPool.cfg", coverage=not th, workers=run.pick(4, 16))
     run.mc("MC_UdpPool", cfg="MC_UdpPool_bug.cfg", expect_violation="NoResidue", workers=1)
+    run.mc("MC_UdpPool", cfg="MC_UdpPool_failbug.cfg", expect_violation="NoResidue", workers=1)
+    run.mc("MC_UdpAlias", cfg="MC_UdpAlias.cfg", workers=1)
+    run.mc("MC_UdpAlias", cfg="MC_UdpAlias_scratch_copy.cfg", workers=1)
+    run.mc("MC_UdpAlias", cfg="MC_UdpAlias_scratch_alias.cfg", expect_violation="Stable", workers=1)
     run.mc("MC_UdpMask", cfg="MC_UdpMask_thorough.cfg" if th else "MC_UdpMask.cfg", coverage=not th, workers=run.pick(4, 16))
     run.mc("MC_UdpMask", cfg="MC_UdpMask_capital.cfg", expect_violation="CapitalAlsoMasked", workers=1)
     out, meta = run.drive("c07")
     run.absorb(meta)
     if not meta.get("extra", {}).get("pool_reacquired_objects"):
         raise vf.MachineryError("no object ever came back from the pool: the residue check would be vacuous")
+    if not meta.get("extra", {}).get("failed_reads"):
+        raise vf.MachineryError("no read of a broken datagram ever failed: the error-path pool histories would be vacuous")
+    if not meta.get("extra", {}).get("alias_kept_outputs"):
+        raise vf.MachineryError("no encoder output was kept: the aliasing check would be vacuous")
     run.validate(out, meta)
     run.selftest(out, meta, gen="gate", field="consumed")
     run.selftest(out, meta, gen="each", field="pooled")
     run.selftest(out, meta, gen="enum", field="type")
+    run.selftest(out, meta, gen="long", field="consumed")
+    run.selftest(out, meta, gen="alias", field="v", remove_match={"ev": "W"})
+    run.selftest(out, meta, gen="fail", field="pooled", remove_match={"ev": "Acquire"})
     if run.violations:
         vf.log("drift check skipped: the verdict pass already rejected real-code behaviour")
     else:
-        drift(run, out, meta, ("c07_codec", "c07_mask"))
+        drift(run, out, meta, ("c07_codec", "c07_mask", "c07_long", "c07_alias", "c07_fail"))
     run.assumptions += [
         "field values are projected by reflection and encoding/binary only; the carried set of a (type, version) is derived from the real writer by changing one field at a time (one generic base point)",
         "a carried field counts as restored if the reader holds it after Read or after Read+Process (UdpActiveStatsPack rebuilds its array only in Process); the stats array has 0 or 5 slots",
